@@ -3,7 +3,6 @@ package c01
 import (
 	"context"
 	"fmt"
-	"strings"
 	"testing"
 
 	"github.com/iotaledger/hive.go/serializer/v2/serix"
@@ -11,7 +10,7 @@ import (
 	"verifharness/internal/stats"
 )
 
-// knownCallLevelBytesJSON is the open known finding KF-C01-2: for a byte array that is the object of the call, the JSON
+// The former known finding KF-C01-2 (repaired in /repo, see known_findings.json; every deviation is a violation now): for a byte array that is the object of the call, the JSON
 // form reads the type settings from the registry only and drops the settings handed over with the call
 // (serix.WithTypeSettings): JSONEncode writes the typed object {"type":..,"data":..} asked for by the call-level object
 // type (or uses the call-level field key), JSONDecode with the same options expects a plain hex string (or the registered
@@ -20,13 +19,12 @@ import (
 // replace the registered key inside the object) and change the JSON form of existing types, so it is not a minimal
 // repair. The generated top-level objects of this package never hand call-level object types to byte arrays in the JSON
 // form; this test does.
-const knownCallLevelBytesJSON = "KF-C01-2"
 
 type knArr4 [4]byte
 
 func TestKnownCallLevelSettingsForByteArrayJSON(t *testing.T) {
 	const check = "known_call_level_settings_byte_array_json"
-	stats.Rule(check, "rapid draws a [4]byte value, an object type (uint8) and optionally a field key handed over with the call (serix.WithTypeSettings), validation on/off. Oracle: the binary form round-trips with the call-level settings; the JSON form round-trips, or JSONEncode refuses, or the outcome is exactly the signature of the known finding KF-C01-2 (JSONDecode with the same options fails with 'non string value' / 'non map' because it ignores the call-level settings) - anything else is a violation. Distinct by (value, settings); non-trivial = every case")
+	stats.Rule(check, "rapid draws a [4]byte value, an object type (uint8) and optionally a field key handed over with the call (serix.WithTypeSettings), validation on/off. Oracle: the binary form round-trips with the call-level settings; the JSON form round-trips or JSONEncode refuses (the former known finding KF-C01-2: JSONDecode with the same options failed because it ignored the call-level settings), and JSONEncode of a pointer to the array writes the same document. Distinct by (value, settings); non-trivial = every case")
 	ctx := context.Background()
 	rapid.Check(t, func(rt *rapid.T) {
 		api := serix.NewAPI()
@@ -69,13 +67,15 @@ func TestKnownCallLevelSettingsForByteArrayJSON(t *testing.T) {
 		switch {
 		case err == nil && jout == in:
 			stats.Label(check, "json_roundtrip")
-		case err != nil && (strings.Contains(err.Error(), "non string value") || strings.Contains(err.Error(), "non map")):
-			stats.Known(knownCallLevelBytesJSON)
-			stats.Label(check, "known_KF-C01-2_observed")
 		case err != nil:
 			fail("JSONDecode of %s failed: %v", j, err)
 		default:
 			fail("JSON round trip of %s changed the value to %x", j, jout)
+		}
+		// the same object handed over through a pointer is written in the same way
+		jp, err := api.JSONEncode(ctx, &in, opts...)
+		if err != nil || string(jp) != string(j) {
+			fail("JSONEncode of a pointer to the array wrote %s (err %v), JSONEncode of the array wrote %s", jp, err, j)
 		}
 		stats.Case(check, true, desc, func() any { return desc })
 	})
